@@ -47,7 +47,9 @@ def attr_case(draw):
           "big": draw(st.integers(0, 3)) == 0,
           # how the class declares the attribute: in _attributes only, with a class-level default of
           # the same name as well, or by inheriting the declaration from its base class
-          "klass": draw(st.sampled_from(["plain", "plain", "default", "child"]))}
+          "klass": draw(st.sampled_from(["plain", "plain", "default", "child"])),
+          # pre-emption at every BYTECODE (between the read and the write of a one-line 'o.x += c')
+          "fine": draw(st.integers(0, 2)) == 0}
 
 
 def serial_results(threads, initial):
@@ -72,7 +74,7 @@ def serial_results(threads, initial):
 
 class C27(Prop):
   id = "C27"
-  quick_examples = 400
+  quick_examples = 600
   thorough_examples = 5000
   rule = ("Generated programs under the deterministic scheduler with the attribute's RLock replaced "
           "by a virtual lock: 2-3 threads x 1-3 statements each from {o.x = c, o.x += c, o.x -= c, "
@@ -81,7 +83,7 @@ class C27(Prop):
           "'o.x += c; out.append(o.x)' and the statement split over two lines with a backslash or parentheses, and right-hand sides that read the attribute again on the same line, on the next line or inside a helper written elsewhere, or call a helper that makes an augmented assignment of its own to the attribute'; a quarter of the programs put the statements in functions that refer to 140 "
           "other names first), written to a real source file; the class declares the attribute in _attributes only, with a class-level default of the same name as well, or inherits the declaration (miros "
           "inspects the caller's source line); pre-emption at every line of "
-          "miros/thread_safe_attributes.py and of the generated file, schedules with run lengths "
+          "miros/thread_safe_attributes.py and of the generated file (in a third of the cases at every bytecode), schedules with run lengths "
           "from 1 (fine races) to 200. Oracle: no thread dies with an exception, no deadlock (exact "
           "detector), and the final value is the result of some serial execution of the same "
           "statements (all interleavings of whole statements are enumerated). Non-trivial: a plain "
@@ -146,7 +148,7 @@ class C27(Prop):
         info["final"] = o.x
         info["outs"] = outs
 
-      s = detsched.Scheduler(schedule=case["schedule"], step_limit=300000,
+      s = detsched.Scheduler(schedule=case["schedule"], step_limit=3000000, opcodes=bool(case.get("fine")),
                              trace_files=[files["thread_safe_attributes"], path])
       try:
         detsched.guarded_run(s, body)
